@@ -715,6 +715,17 @@ DIRECTED = {
         "t.go": 'package main\n\nimport "vscratch/NAME/defaults"\n\ntype App struct{ S string }\n\nfunc NewApp(n defaults.Name) *App { return &App{S: string(n)} }\n',
         "main.go": 'package main\n\nfunc main() { println(InitApp().S) }\n',
         "wire.go": '//go:build wireinject\n\npackage main\n\nimport (\n\t"github.com/google/wire"\n\n\t"vscratch/NAME/defaults"\n)\n\nfunc InitApp() *App {\n\twire.Build(wire.Value(defaults.Server.Name), NewApp)\n\treturn nil\n}\n'},
+    # a channel whose element type lives in another package, as a struct field filled by wire.Struct and as an injector result
+    "chan_of_external_type": {
+        "sig/sig.go": 'package sig\n\ntype Event struct{ N int }\n\nfunc NewEvents() chan Event { return make(chan Event, 3) }\nfunc NewDone() <-chan *Event { return make(chan *Event, 2) }\n',
+        "t.go": 'package main\n\nimport "vscratch/NAME/sig"\n\ntype Hub struct {\n\tEvents chan sig.Event\n\tDone   <-chan *sig.Event\n}\n',
+        "main.go": 'package main\n\nfunc main() { h := InitHub(); println(cap(h.Events), cap(h.Done), cap(InitEvents())) }\n',
+        "wire.go": '//go:build wireinject\n\npackage main\n\nimport (\n\t"github.com/google/wire"\n\n\t"vscratch/NAME/sig"\n)\n\nfunc InitHub() *Hub {\n\twire.Build(sig.NewEvents, sig.NewDone, wire.Struct(new(Hub), "*"))\n\treturn nil\n}\n\nfunc InitEvents() chan sig.Event {\n\twire.Build(sig.NewEvents)\n\treturn nil\n}\n'},
+    # unexported fields of structs of the migrated package itself: wire.Struct("*") fills them, wire.FieldsOf exposes them
+    "unexported_fields_same_package": {
+        "t.go": 'package main\n\ntype Port int\ntype Seed int\ntype Tick int\n\ntype Clock struct{ t Tick }\n\nfunc NewClock(t Tick) *Clock { return &Clock{t: t} }\n\ntype Conf struct {\n\tport Port\n\tName string\n}\n\nfunc NewConf(s Seed) *Conf { return &Conf{port: Port(s) + 1000, Name: "n"} }\n\ntype Store struct{ P Port }\n\nfunc NewStore(p Port) *Store { return &Store{P: p} }\n\ntype Svc struct {\n\tclock *Clock\n\tstore *Store\n}\n',
+        "main.go": 'package main\n\nimport "reflect"\n\n// arguments are matched by type: the property fixes the set of argument types, not their order\nfunc call(f any, args ...any) []reflect.Value {\n\tfv := reflect.ValueOf(f)\n\tin := make([]reflect.Value, fv.Type().NumIn())\n\tfor i := range in {\n\t\tfor _, a := range args {\n\t\t\tif reflect.TypeOf(a) == fv.Type().In(i) {\n\t\t\t\tin[i] = reflect.ValueOf(a)\n\t\t\t}\n\t\t}\n\t}\n\treturn fv.Call(in)\n}\n\nfunc main() {\n\ts := call(InitApp, Seed(3), Tick(7))[0].Interface().(*Svc)\n\tprintln(int(s.clock.t), int(s.store.P))\n}\n',
+        "wire.go": '//go:build wireinject\n\npackage main\n\nimport "github.com/google/wire"\n\nfunc InitApp(s Seed, t Tick) *Svc {\n\twire.Build(NewClock, NewConf, wire.FieldsOf(new(*Conf), "port"), NewStore, wire.Struct(new(Svc), "*"))\n\treturn nil\n}\n'},
     "interface_value_nested_selector": {
         "streams/streams.go": 'package streams\n\nimport "bytes"\n\nvar Std = struct{ Out *bytes.Buffer }{Out: bytes.NewBufferString("buf")}\n',
         "t.go": 'package main\n\nimport "fmt"\n\ntype App struct{ S string }\n\nfunc NewApp(w fmt.Stringer) *App { return &App{S: w.String()} }\n',
@@ -765,7 +776,7 @@ def directed_runs(key="WD-x"):
         if rc != 0 or o.strip():
             rec["problems"].append("C14: migrated file is not gofmt-stable: %s%s" % (o, e[-200:]))
         rc, o, e = vlib.run(["go", "vet", "."], cwd=kdir, env=env, timeout=300)
-        if rc != 0 and "InitServer" not in (o + e) and "InitApp" not in (o + e):
+        if rc != 0 and not re.search(r"undefined: Init\w+", o + e):
             rec["problems"].append("C14: migrated file does not compile in the source package: %s" % (o + e)[-400:])
             continue
         rc, o, e = vlib.run([kessoku, "kessoku.go"], cwd=kdir, env=env, timeout=300)
